@@ -148,6 +148,9 @@ impl Interpreter {
         // That feels like overkill so for now we're just doing this.
         match first_word.to_ascii_uppercase().as_str() {
             "RUN" => {
+                // A reply that was provided but not consumed (because the
+                // program was interrupted first) belongs to the old run.
+                self.input = None;
                 self.variables = Variables::default();
                 self.arrays = Arrays::default();
                 self.program.run_from_first_numbered_line();
